@@ -41,7 +41,7 @@ def run(ctx):
     ftdiff.run(ctx, rng, 40 * k, ops=("swizzle",))
     recs = pool.collect(ctx, [dict(gen="g7", count=130 * k, modes=["metrics"], nexec=2, reference=True),
                               dict(gen="g7conv", count=20 * k, modes=["metrics"], nexec=2, reference=True),
-                              dict(gen="g7lf", count=15 * k, modes=["metrics"], nexec=2, reference=True),
+                              dict(gen="g7lf", count=15 * k, modes=["metrics"], nexec=2, reference=True), dict(gen="g7lfa", count=20 * k, modes=["metrics"], nexec=2, reference=True),
                               dict(gen="g7mrg", count=12 * k, modes=["metrics"], nexec=2, reference=True)])
     keep = []
     for r in recs:
